@@ -139,7 +139,19 @@ func DateTimeFromString(env Environment, str string, fillTime bool) (time.Time, 
 	}
 
 	// combine our date and time
-	return time.Date(date.Year, time.Month(date.Month), date.Day, timeOfDay.Hour, timeOfDay.Minute, timeOfDay.Second, timeOfDay.Nanos, env.Timezone()), nil
+	dt := time.Date(date.Year, time.Month(date.Month), date.Day, timeOfDay.Hour, timeOfDay.Minute, timeOfDay.Second, timeOfDay.Nanos, env.Timezone())
+
+	// a wall clock time which is skipped in this timezone (e.g. midnight on a day when DST starts at midnight) can come
+	// back as a time that far before the gap - which can be on the previous day - so use the first instant after the gap
+	wanted := time.Date(date.Year, time.Month(date.Month), date.Day, timeOfDay.Hour, timeOfDay.Minute, timeOfDay.Second, timeOfDay.Nanos, time.UTC)
+	got := time.Date(dt.Year(), dt.Month(), dt.Day(), dt.Hour(), dt.Minute(), dt.Second(), dt.Nanosecond(), time.UTC)
+	if got.Before(wanted) {
+		if _, zoneEnd := dt.ZoneBounds(); !zoneEnd.IsZero() {
+			dt = zoneEnd
+		}
+	}
+
+	return dt, nil
 }
 
 // DateFromString returns a date constructed from the passed in string, or an error if we
